@@ -268,8 +268,14 @@ CatalogueOk ==
 
 F(s, p, x, e, m) == [s |-> s, p |-> p, x |-> x, e |-> e, m |-> m]
 T(c, f) == [c |-> c, f |-> f]
+\* largest dimension (<= 3) in which every structure of the equation is a valid model with its shape parameter:
+\* the equation is executed in the dimensions 1..mxd in which gstlearn offers all its structures
+EqMaxDim(t) == LET fs == UNION { Range(t[i].f) : i \in DOMAIN t }
+                   ds == { Min2(3, ValidUpTo(Entry(f.s), f.p)) : f \in fs } IN
+               CHOOSE x \in ds : \A y \in ds : x <= y
 Eq(cls, s, unit, a, t, q, lg, ex, dg) ==
-  [k |-> "eq", cls |-> cls, s |-> s, unit |-> unit, a |-> a, t |-> t, q |-> q, lg |-> lg, ex |-> ex, ip |-> <<0, 1>>, dg |-> dg]
+  [k |-> "eq", cls |-> cls, s |-> s, unit |-> unit, a |-> a, t |-> t, q |-> q, lg |-> lg, ex |-> ex, ip |-> <<0, 1>>, dg |-> dg,
+   mxd |-> EqMaxDim(t)]
 P1 == QI(1)
 Val(cls, s, p, unit, a, x, q, dg) == Eq(cls, s, unit, a, <<T(QI(1), <<F(s, p, x, 1, "c")>>)>>, q, <<>>, <<>>, dg)
 
